@@ -636,6 +636,9 @@ def correspondence(ctx):
         if isinstance(y, str) or line == 'bad-op':
             ctx.disagree(op[:1500], line[:300], y if isinstance(y, str) else 'array')
             continue
+        if f32_subnormal_factor(spec, f32, th):
+            ctx.count('float32-subnormal-factor(value tie not applicable)')
+            continue
         m = parse_out(line)
         yv = np.asarray(y)
         if isinstance(spec, StQR):
@@ -677,6 +680,18 @@ def f32_underflow(spec, f32, row):
     row = np.asarray(row, dtype=np.float64)
     sp = np.logaddexp(0.0, row[:spec.rank])
     return float(np.sum(sp ** 2) + np.sum(row[spec.rank:] ** 2)) < 1e-36
+
+
+def f32_subnormal_factor(spec, f32, row):
+    """float32 only: every entry of the Cholesky factor of to_trace1_psd_cholesky (softplus(theta[:rank]) on the diagonal, theta[rank:] below it) is a
+    float32 SUBNORMAL number (< 2^-126 ~ 1.2e-38, e.g. softplus(-99) = 1e-43): the entries carry only log2(x / 2^-149) bits, so the normalised output - still
+    a trace-one PSD matrix, which the probe keeps checking - differs from the exact value by up to 2^-149/x (1e-2 at 1e-43).  The VALUE tie at 2e-4 is not
+    applicable to such a row (found by the seed sweep, VERIF_SEED=10: theta = (-99.6, -99.8, -98.9, 0, 0, 0))."""
+    if not (f32 and isinstance(spec, PsdChol) and not isinstance(spec, PsdEns)):
+        return False
+    row = np.asarray(row, dtype=np.float64)
+    big = max(float(np.logaddexp(0.0, row[:spec.rank]).max(initial=0.0)), float(np.abs(row[spec.rank:]).max(initial=0.0)))
+    return big < 2.0 ** -126
 
 
 def cross_backend(ctx, recs):
